@@ -10,6 +10,7 @@ import (
 	"errors"
 	"fmt"
 	"runtime"
+	"syscall"
 	"strings"
 	"sync"
 	"sync/atomic"
@@ -206,6 +207,7 @@ type vfSim struct {
 	apiSeq   atomic.Int64
 	estabAt  time.Duration
 	closed   bool
+	lockOrderSeen bool
 	extraHook func(a *Association, side int, ev int, c *chunkPayloadData)
 	noInv    bool
 	puppet   [2]bool
@@ -287,18 +289,28 @@ func (s *vfSim) onHook(a *Association, side int, ev int, c *chunkPayloadData) {
 				if tm == nil {
 					continue
 				}
+				if s.lockOrderSeen {
+					break
+				}
+				// another goroutine may hold the mutex for a few instructions, and on a loaded machine its thread may
+				// be off the CPU for milliseconds: the bound is 3 s of real time (the bubble's clock is virtual)
 				free := false
-				for i := 0; i < 2000 && !free; i++ {
+				limit := vfRealNanos() + 3e9
+				for i := 0; !free; i++ {
 					if tm.mutex.TryLock() {
 						tm.mutex.Unlock() //nolint:staticcheck
 						free = true
 					} else {
 						runtime.Gosched()
+						if i%64 == 63 && vfRealNanos() > limit {
+							break
+						}
 					}
 				}
 				s.res.count("c20_timer_lock_order_checked", 1)
 				if !free {
-					s.res.violate("C20", "lock-order/timer-mutex-held-in-callback", "side %d: the %s timer mutex stays locked while a retransmission timer's observer runs under the association lock: the timer calls the association with its own mutex held, and the association calls start/stop on its timers under its lock (lock-order inversion, deadlock when the two meet)", side, name)
+					s.lockOrderSeen = true
+					s.res.violate("C20", "lock-order/timer-mutex-held-in-callback", "side %d: the %s timer mutex stays locked (3 s of real time) while a retransmission timer's observer runs under the association lock: the timer calls the association with its own mutex held, and the association calls start/stop on its timers under its lock (lock-order inversion, deadlock when the two meet)", side, name)
 				}
 			}
 		}
@@ -345,6 +357,14 @@ func (s *vfSim) onHook(a *Association, side int, ev int, c *chunkPayloadData) {
 	if s.extraHook != nil {
 		s.extraHook(a, side, ev, c)
 	}
+}
+
+// vfRealNanos: wall clock that synctest does not virtualise.
+func vfRealNanos() int64 {
+	var tv syscall.Timeval
+	_ = syscall.Gettimeofday(&tv)
+
+	return tv.Sec*1e9 + tv.Usec*1e3
 }
 
 // onYield runs at suspension points without the association lock.
